@@ -20,7 +20,7 @@ def enc_value(spec):
 
 class C16(Prop):
     id = 'C16'
-    lean_modules = ['RSocketModel.Props.C16', 'RSocketModel.Props.C13Endpoints']
+    lean_modules = ['RSocketModel.Props.C16', 'RSocketModel.Props.C16Source', 'RSocketModel.Props.C13Endpoints']
     technique = 'Lean 4 proof (codec round-trip of the SETUP built from the configuration; queue/gate invariant over all connect interleavings; decision logic) + differential correspondence'
     level_text = ('c16_setup_fields_exact (every configuration within the wire ranges), c16_millis_exact, c16_setup_first (every interleaving of requests, keepalive ticks, sender steps, '
                   'gate opening, timeouts and reconnects after connect()) and c16_server_decision are kernel-checked; the client model is replayed on the entry-point sequence observed from '
